@@ -19,7 +19,8 @@ RULE = ("E1/E2: ('table', t) every entry of S, Si, T1-T8, U1-U4, rcon against th
         "Decrypter; ('stream', mode, L, block size) encrypt_stream / decrypt_stream around their 8 KiB block size; ('adapter', L, iv, key) create_AES128 encrypt/decrypt/mac for every length 1..96 and around 1 KiB / 4 KiB / 64 KiB; ('hist', ops) every sequence of <= d "
         "operations over 3 adapter objects x {enc d1, enc d2, dec x, mac d1}, each result compared with a fresh object; ('pad', n). "
         "Distinct = distinct case tuples, non-trivial = all; measured sub-counts (table entries, splits) are in 'measured'."
-        " Added: ('badkey' | 'badlen' | 'badiv' | 'fedafterfinal') inputs without a standard result must raise, never return bytes; stream helpers also with padding 'none'; adapter lengths up to 64 KiB.")
+        " Added: ('badkey' | 'badlen' | 'badiv' | 'fedafterfinal') inputs without a standard result must raise, never return bytes; stream helpers also with padding 'none'; adapter lengths up to 64 KiB."
+        ' Stream helpers are also fed by input streams that return fewer bytes than asked for while more data follows.')
 ASSUMPTIONS = [
     "'all keys/blocks' is replaced by complete verification of every table entry plus structured families that drive every table "
     "index at every byte position; agreement on other 128-bit values is inferred from the cipher's input-independent control flow",
